@@ -89,6 +89,7 @@ const (
 	Park            // block before sending until Release
 	FailBefore      // return an error, send nothing
 	FailAfter       // send, then return an error although it was applied
+	ParkAfter       // send, then block before returning the (successful) result until Release
 )
 
 var ErrInjected = errors.New("verif: injected etcd error")
@@ -101,6 +102,8 @@ type CtlKV struct {
 	release chan Mode
 	// Filter, when set, decides whether a commit is subject to `next` (e.g. only puts to a key).
 	Filter func(ops []clientv3.Op) bool
+	// OnCommit, when set, sees the Then-ops of every commit at entry (before it is parked or sent).
+	OnCommit func(thenOps []clientv3.Op)
 	// Log, when set, is told about every commit (after it returned).
 	Log func(cmps []clientv3.Cmp, thenOps, elseOps []clientv3.Op, resp *clientv3.TxnResponse, err error)
 }
@@ -164,6 +167,9 @@ func (t *ctlTxn) Else(ops ...clientv3.Op) clientv3.Txn {
 
 func (t *ctlTxn) Commit() (*clientv3.TxnResponse, error) {
 	c := t.c
+	if c.OnCommit != nil {
+		c.OnCommit(t.then)
+	}
 	c.mu.Lock()
 	m := c.next
 	if m != Pass && (c.Filter == nil || c.Filter(t.then)) {
@@ -186,6 +192,10 @@ func (t *ctlTxn) Commit() (*clientv3.TxnResponse, error) {
 		if err == nil {
 			err = ErrInjected
 		}
+	case ParkAfter:
+		resp, err = t.inner.Commit()
+		c.parked <- struct{}{}
+		<-c.release
 	default:
 		resp, err = t.inner.Commit()
 	}
